@@ -89,6 +89,18 @@ type Proc struct {
 	Sigs            []SigRec
 	Data            interface{} // the scenario's plan for this process
 	exited          chan struct{}
+
+	// stdout/stderr plumbing as os/exec does it: when the supervisor hands a writer that is not a file, the
+	// child writes into a pipe that every descendant inherits; Wait returns only once all of them have closed
+	// it (or WaitDelay has passed)
+	Piped        bool
+	PipeOwner    *Proc         // for a descendant: whose pipe it holds (nil = none)
+	pipeChange   chan struct{} // closed and renewed whenever a holder of this process's pipe goes away
+	WaitDoneSeq  int           // the supervisor's Wait on this process has returned (kernel sequence number / clock)
+	WaitDoneAt   int64
+	WaitDoneStep int
+	PipesGoneAt  int64 // kernel clock when the last holder (or the process itself) went away
+	PipesGoneSeq int
 }
 
 func (p *Proc) String() string {
@@ -107,6 +119,7 @@ type Kernel struct {
 	OnSignal func(p *Proc, sig Signal) // scenario: schedule the consequences (p is running)
 	Logf     func(format string, a ...interface{})
 	Clock    func() int64
+	Step     func() int
 	Syscalls map[string]int
 }
 
@@ -164,7 +177,7 @@ func (k *Kernel) create(parent *Proc, path string, args, env []string, dir strin
 		return nil, err
 	}
 	k.Seq++
-	p := &Proc{Pid: pid, Pgid: 1, PPid: 1, Path: path, Args: args, Env: env, Dir: dir, Setpgid: setpgid, BornSeq: k.Seq, BornAt: k.now(), exited: make(chan struct{})}
+	p := &Proc{Pid: pid, Pgid: 1, PPid: 1, Path: path, Args: args, Env: env, Dir: dir, Setpgid: setpgid, BornSeq: k.Seq, BornAt: k.now(), exited: make(chan struct{}), pipeChange: make(chan struct{})}
 	if parent != nil {
 		p.PPid, p.Pgid = parent.Pid, parent.Pgid
 	}
@@ -177,7 +190,7 @@ func (k *Kernel) create(parent *Proc, path string, args, env []string, dir strin
 }
 
 // Spawn is fork+exec by the supervisor (system call).
-func (k *Kernel) Spawn(path string, args, env []string, dir string, setpgid bool) (*Proc, error) {
+func (k *Kernel) Spawn(path string, args, env []string, dir string, setpgid, piped bool) (*Proc, error) {
 	k.Mu.Lock()
 	defer k.Mu.Unlock()
 	k.Syscalls["spawn"]++
@@ -186,6 +199,7 @@ func (k *Kernel) Spawn(path string, args, env []string, dir string, setpgid bool
 		k.logf("kernel: spawn %s failed: %v", path, err)
 		return nil, err
 	}
+	p.Piped = piped
 	if k.OnSpawn != nil {
 		if err := k.OnSpawn(p); err != nil {
 			// the exec failed: no process
@@ -200,12 +214,31 @@ func (k *Kernel) Spawn(path string, args, env []string, dir string, setpgid bool
 }
 
 // Fork creates a child of p in p's process group (driver side or from OnSpawn; no lock).
-func (k *Kernel) Fork(parent *Proc, path string) (*Proc, error) {
+func (k *Kernel) Fork(parent *Proc, path string, inheritsPipe bool) (*Proc, error) {
 	p, err := k.create(parent, path, nil, nil, "", false)
 	if err == nil {
-		k.logf("kernel: %v forked %v", parent, p)
+		if inheritsPipe && parent.Piped {
+			p.PipeOwner = parent
+		}
+		k.logf("kernel: %v forked %v (holds the parent's output pipe: %v)", parent, p, p.PipeOwner != nil)
 	}
 	return p, err
+}
+
+// PipeHolders returns the living processes that still hold p's output pipe (driver side / under the lock).
+func (k *Kernel) PipeHolders(p *Proc) int {
+	n := 0
+	for _, q := range k.All {
+		if q.PipeOwner == p && q.State == Running {
+			n++
+		}
+	}
+	return n
+}
+
+// Terminated reports whether Wait on p can return: p is dead and nobody holds its output pipe any more.
+func (k *Kernel) Terminated(p *Proc) bool {
+	return p.State != Running && (!p.Piped || k.PipeHolders(p) == 0)
 }
 
 // Die ends a running process (driver side; no lock). Children of the supervisor stay zombies until waited for,
@@ -224,14 +257,27 @@ func (k *Kernel) Die(p *Proc, st WaitStatus) bool {
 	}
 	k.logf("kernel: %v died: %v", p, st)
 	close(p.exited)
+	for _, owner := range []*Proc{p, p.PipeOwner} {
+		if owner != nil && owner.Piped {
+			if k.Terminated(owner) && owner.PipesGoneSeq == 0 {
+				owner.PipesGoneAt, owner.PipesGoneSeq = k.now(), k.Seq
+			}
+			close(owner.pipeChange)
+			owner.pipeChange = make(chan struct{})
+		}
+	}
+	if !p.Piped && p.PipesGoneSeq == 0 {
+		p.PipesGoneAt, p.PipesGoneSeq = k.now(), k.Seq
+	}
 	return true
 }
 
-// Wait blocks until p has died and reaps it (system call of the supervisor).
-func (k *Kernel) Wait(p *Proc) WaitStatus {
+// Wait blocks until p has died, reaps it, and - if its output goes through a pipe - until every process holding
+// that pipe is gone or waitDelay (> 0) has passed since the death. It reports the status and whether the delay
+// expired first (os/exec's ErrWaitDelay).
+func (k *Kernel) Wait(p *Proc, waitDelay int64, after func(ns int64) <-chan struct{}) (WaitStatus, bool) {
 	<-p.exited
 	k.Mu.Lock()
-	defer k.Mu.Unlock()
 	k.Syscalls["wait"]++
 	if p.State == Zombie {
 		k.Seq++
@@ -239,7 +285,34 @@ func (k *Kernel) Wait(p *Proc) WaitStatus {
 		delete(k.byPid, p.Pid)
 		k.logf("kernel: %v reaped", p)
 	}
-	return p.Status
+	k.Mu.Unlock()
+	defer func() {
+		p.WaitDoneSeq, p.WaitDoneAt = k.Seq, k.now()
+		if k.Step != nil {
+			p.WaitDoneStep = k.Step()
+		}
+	}()
+	if !p.Piped {
+		return p.Status, false
+	}
+	var expired <-chan struct{}
+	if waitDelay > 0 {
+		expired = after(waitDelay)
+	}
+	for {
+		k.Mu.Lock()
+		n, ch := k.PipeHolders(p), p.pipeChange
+		k.Mu.Unlock()
+		if n == 0 {
+			return p.Status, false
+		}
+		select {
+		case <-ch:
+		case <-expired:
+			k.logf("kernel: wait delay for the output pipe of %v expired (%d holders left)", p, n)
+			return p.Status, true
+		}
+	}
 }
 
 func (k *Kernel) Getpgid(pid int) (int, error) {
